@@ -45,6 +45,57 @@ def _stored_variant(body, rv):
     return ""
 
 
+def _array_loop_elements(body, arr):
+    """[(element local, next() site)] of `for x in <array local>`: the locals that receive the Some-payload of next() on the array's
+    by-value iterator"""
+    from .core import callee_decl
+
+    out = []
+    for s in body.calls():
+        if not (callee_decl(callee_of(s)) or "").endswith("into_iter") or not s.node["args"]:
+            continue
+        q = op_place(s.node["args"][0])
+        if q is None or q["l"] != arr or q["p"]:
+            continue
+        it = s.node["dst"]["l"]
+        its = {it}
+        for st in body.sites():
+            n = st.node
+            if st.si is not None and n["k"] == "assign" and n["rv"]["k"] == "use" and not n["dst"]["p"]:
+                p2 = op_place(n["rv"]["ops"][0])
+                if p2 is not None and p2["l"] in its and not p2["p"]:
+                    its.add(n["dst"]["l"])
+        for s2 in body.calls():
+            if callee_decl(callee_of(s2)) != "core::iter::traits::iterator::Iterator::next" or not s2.node["args"]:
+                continue
+            # the receiver is a (re)borrow of the iterator
+            l = op_place(s2.node["args"][0])["l"] if op_place(s2.node["args"][0]) is not None else None
+            for _ in range(6):
+                if l is None or l in its:
+                    break
+                ds = [d for d in body.defs.get(l, []) if d.si is not None and d.node["k"] == "assign"]
+                if len(ds) != 1:
+                    l = None
+                    break
+                rv = ds[0].node["rv"]
+                if rv["k"] == "ref":
+                    l = rv["place"]["l"]
+                elif rv["k"] == "use" and op_place(rv["ops"][0]) is not None:
+                    l = op_place(rv["ops"][0])["l"]
+                else:
+                    l = None
+            if l is None or l not in its:
+                continue
+            res = s2.node["dst"]["l"]
+            for st in body.sites():
+                n = st.node
+                if st.si is not None and n["k"] == "assign" and n["rv"]["k"] == "use" and not n["dst"]["p"]:
+                    p2 = op_place(n["rv"]["ops"][0])
+                    if p2 is not None and p2["l"] == res and p2["p"]:
+                        out.append((n["dst"]["l"], s2))
+    return out
+
+
 def _classify_borrow(body, local, fn, site, out, mutable):
     """the borrow held in `local`: where does it go"""
     cs = consumers(body, local, follow_refs=True)
@@ -68,6 +119,10 @@ def _classify_borrow(body, local, fn, site, out, mutable):
             info = c.info
             if isinstance(info, tuple) and info[0] == "aggregate" and info[1].get("kind") == "closure":
                 out.append(Use(c.site, "captured", False, fn, detail=info[1].get("path")))
+            elif isinstance(info, tuple) and info[0] == "aggregate" and info[1].get("kind") == "array" and _array_loop_elements(body, c.site.node["dst"]["l"]):
+                # `for r in [&mut self.a, &mut self.b] { r.push(..) }`: the borrow is what the loop element is
+                for el, nsite in _array_loop_elements(body, c.site.node["dst"]["l"]):
+                    _classify_borrow(body, el, fn, nsite, out, mutable)
             else:
                 out.append(Use(c.site, "escapes", mutable, fn))
         elif c.kind == "return":
